@@ -80,6 +80,13 @@ func main() {
 				fmt.Printf("loop %d: head block %d, %d blocks\n", l.Ordinal, l.Head.Index, len(l.Blocks))
 			}
 		}
+	case "layouts":
+		w, err := loadWorld(o.repo, o.stdlib, []string{"./..."})
+		if err != nil {
+			fmt.Fprintln(os.Stderr, err)
+			os.Exit(2)
+		}
+		w.dumpLayouts(strings.Split(o.funcs, ","))
 	case "list":
 		w, err := loadWorld(o.repo, o.stdlib, []string{"./..."})
 		if err != nil {
@@ -177,6 +184,11 @@ func runCheck(o *Options) int {
 	var targets []target
 	lemmaSet := map[string]bool{}
 	var examples []*Example
+	type layoutRef struct {
+		pi *PkgInfo
+		l  *Layout
+	}
+	var layouts []layoutRef
 	examplePkg := map[string]*PkgInfo{}
 	involved := map[*PkgInfo]bool{}
 	addFunc := func(pi *PkgInfo, name, label string) error {
@@ -235,6 +247,17 @@ func runCheck(o *Options) int {
 						}
 						lemmaSet[it.Name] = true
 						involved[pi] = true
+					case "layout":
+						ok := false
+						for _, l := range pi.contract.Layouts {
+							if l.Type == it.Name {
+								layouts = append(layouts, layoutRef{pi, l})
+								ok = true
+							}
+						}
+						if !ok {
+							return reportLoadFailure(o, fmt.Errorf("property %s: unknown layout %s", o.prop, it.Name), start)
+						}
 					case "example":
 						for _, ex := range pi.contract.Examples {
 							if ex.Name == it.Name {
@@ -336,6 +359,14 @@ func runCheck(o *Options) int {
 		results = append(results, r)
 		for _, ob := range r.Obls {
 			jobs = append(jobs, &job{o: ob, g: r.Gen})
+		}
+	}
+
+	for _, lr := range layouts {
+		r := w.verifyLayout(lr.pi, lr.l)
+		results = append(results, r)
+		for _, ob := range r.Obls {
+			jobs = append(jobs, &job{o: ob, g: r.Gen, preset: true})
 		}
 	}
 
